@@ -34,7 +34,7 @@ ASSUMPTIONS = [
     "values are compared after parsing the written .cnn files the same way in the model (6 significant digits in the file are not a tolerance issue)",
     "estimator ties (biweight stopping test within rounding of its threshold; symmetric columns in the midvariance) accept either branch",
     "the 'consequently' clause is asserted for cohorts of >= 2 samples: with one sample the estimator definition itself gives the midpoint with the pseudo-sample",
-    "when sexes are given (female_samples=True/False) the cohort really has that sex; when inferred, the profile amplitude is <= 0.2 and X holds >= 40 bins",
+    "when sexes are given (female_samples=True/False) the cohort really has that sex; when inferred, the profile amplitude is <= 0.2 and X and the autosomes hold >= 40 bins each",
     "rmask is read with the same unambiguous-base denominator as gc; both are 0 for an all-N bin; a pooled reference leaves rmask empty on target bins (it is only used for antitargets) - not asserted there",
     "semantic tier (corrections on): bins, order and the X/Y levels are asserted, not exact values",
     "null-coverage bins: up to 5% when sexes are inferred or corrections are on (sex inference on null-heavy samples is outside C15's premise), up to 30% otherwise",
@@ -61,7 +61,8 @@ def strategy(draw):
     semantic = kind == "semantic"
     return {
         "kind": kind, "style": style, "seed": seed, "male_ref": male_ref, "nauto": nauto, "has_y": draw(st.booleans()),
-        "per_auto": draw(st.integers(50, 70)) if semantic else draw(st.integers(3, 20)),
+        # inferred sexes need autosomes to compare X with: at least 40 autosomal bins then, as in C15's premise
+        "per_auto": draw(st.integers(50, 70)) if semantic else max(draw(st.integers(3, 20)), -(-40 // nauto) if given is None else 0),
         "nx": draw(st.integers(40, 48)) if (given is None or semantic) else draw(st.sampled_from([3, 12, 40])),
         "ny": draw(st.integers(4, 12)),
         "female": sexes, "given": given,
